@@ -539,5 +539,326 @@ def replay(case):
     return Failure(sig=res[0], case=case, detail=res[1]) if res else None
 
 
+
+# =========================================================================== correspondence families
+
+
+def _nat(l):
+    return ",".join(str(int(x)) for x in l) or "-"
+
+
+def _err(ex):
+    return "ERR " + type(ex).__name__
+
+
+def _pq_dir(nfiles=8, rows=40):
+    import os
+
+    import dask_expr as dx
+
+    d = os.path.join(c11._tmpdir(), f"c06-pq-{nfiles}-{rows}")
+    if not os.path.exists(d):
+        pdf = pd.DataFrame({"a": np.arange(rows, dtype="int64"), "b": np.arange(rows, dtype="int64") % 3, "c": "x" * 40},
+                           index=pd.Index(np.arange(100, 100 + rows, dtype="int64"), name="i"))
+        dx.from_pandas(pdf, npartitions=nfiles).to_parquet(d)
+    return d
+
+
+def fam_fused(ctx):
+    """T2: FusedIO._fusion_buckets / _divisions / npartitions on real multi-file parquet reads under partition selections."""
+    import dask_expr as dx
+    from dask_expr.io.io import FusedIO
+
+    f = Family("divisions[FusedIO._fusion_buckets/_divisions/npartitions]")
+    reqs, code, inputs, nontriv = [], [], [], []
+    for nfiles in (4, 8) if ctx.quick else (3, 4, 6, 8, 9):
+        for known in (True, False):
+            r = c11._src(dx.read_parquet(_pq_dir(nfiles), calculate_divisions=known, columns=["a"]).expr)
+            n = r.npartitions
+            sets = [None, [0], [n - 1], [1, 2], [0, 2, 3], list(range(1, n)), [n - 1, 0], [0, 0, 1], list(range(n))[::-1]]
+            if not ctx.quick:
+                sets += c11._index_sets(min(n, 4), 3)[1:]
+            for P in sets:
+                try:
+                    e = r if P is None else r.substitute_parameters({"_partitions": P})
+                    fe = FusedIO(e)
+                    b = fe._fusion_buckets
+                    step = max(len(x) for x in b)
+                    full = e._divisions()
+                    d = fe._divisions()
+                    dtxt = "unknown" if d[0] is None else _nat(d)
+                    txt = "buckets=" + "|".join(_nat(x) for x in b) + ";div=" + dtxt
+                    if fe.npartitions != len(b) or len(d) != len(b) + 1:
+                        txt += f";odd npartitions={fe.npartitions} len(div)={len(d)}"
+                    fulltxt = "-" if full[0] is None else _nat(full)
+                except Exception as ex:  # noqa: BLE001
+                    txt, step, fulltxt = _err(ex), 1, "-"
+                reqs.append(f"pt fused full={fulltxt} P={_nat(P if P is not None else range(n))} step={step}")
+                code.append(txt)
+                inputs.append({"nfiles": nfiles, "known": known, "P": P})
+                nontriv.append(True)
+    model = drive(reqs)
+    f.compare(inputs, code, model, nontriv)
+    f.note = "step (= ceil(1/compression factor), capped by sqrt(npartitions)) is taken from the real buckets; the model rebuilds buckets and divisions from it"
+    return f
+
+
+def fam_concat(ctx):
+    """T2: Concat._divisions (axis=0) and indexed Merge._divisions versus the model."""
+    import dask_expr as dx
+    from dask_expr._concat import Concat
+
+    f = Family("divisions[Concat._divisions, Merge._divisions(indexed)]")
+    reqs, code, inputs, nontriv = [], [], [], []
+    vecs = [[0, 5, 9], [10, 12], [3, 12], [9, 20, 30], [0, 1], [0, 5, 9, 9], [12, 12], [-3, 0]]
+    frames = {tuple(v): c11._frame_with_divs(v) for v in vecs}
+    combos = list(itertools.permutations(vecs, 2)) + [tuple(c) for c in itertools.permutations(vecs[:4], 3)]
+    for combo in combos:
+        for il in (False, True):
+            try:
+                e = Concat("outer", False, {}, 0, False, il, *[frames[tuple(v)] for v in combo])
+                d = e._divisions()
+                txt = "unknown" if d[0] is None else "known:" + _nat(d)
+            except Exception as ex:  # noqa: BLE001
+                txt = _err(ex)
+            reqs.append("dv concat ds=" + "|".join(_nat(v) for v in combo) + f" interleave={int(il)}")
+            code.append(txt)
+            inputs.append({"divisions": combo, "interleave": il})
+            nontriv.append(True)
+    # indexed merge: unique(merge_sorted(left.divisions, right.divisions)) (both sides with >= 2 partitions)
+    from dask_expr._merge import Merge
+
+    for a, b in itertools.permutations([v for v in vecs if len(v) > 2], 2):
+        try:
+            e = Merge(frames[tuple(a)], frames[tuple(b)], "inner", None, None, True, True)
+            txt = _nat(e._divisions())
+        except Exception as ex:  # noqa: BLE001
+            txt = _err(ex)
+        reqs.append("dv mergeunique ds=" + _nat(a) + "|" + _nat(b))
+        code.append(txt)
+        inputs.append({"left": a, "right": b, "what": "Merge._divisions"})
+        nontriv.append(True)
+    model = drive(reqs)
+    f.compare(inputs, code, model, nontriv)
+    return f
+
+
+def _len_features(fr):
+    from dask_expr._concat import Concat
+    from dask_expr._expr import Index
+    from dask_expr.io.io import IO
+
+    cls = "Index" if isinstance(fr, Index) else "IO" if isinstance(fr, IO) else "Concat" if isinstance(fr, Concat) else "other"
+    childlp = bool(getattr(fr.frame, "_is_length_preserving", False)) if cls == "Index" else False
+    deps = [d.npartitions for d in fr.dependencies()]
+    c0 = cls == "Concat" and fr.operand("axis") == 0
+    ncols = len(fr.columns) if fr.ndim == 2 else 0
+    return cls, bool(fr._is_length_preserving), childlp, deps, c0, fr.ndim, ncols
+
+
+def _classify_len_result(le, r):
+    from dask_expr._expr import Index
+    from dask_expr._reductions import Len
+
+    fr = le.frame
+    if r is None:
+        return "none"
+    if r is le:
+        return "keep"
+    if isinstance(r, Len):
+        if isinstance(fr, Index) and r.frame._name == fr.frame._name:
+            return "childOfIndex"
+        for i, d in enumerate(fr.dependencies()):
+            if r.frame._name == d._name:
+                return f"dep:{i}"
+        if isinstance(r.frame, Index) and r.frame.frame._name == fr._name:
+            return "index"
+        return "?len"
+    names = {d._name for d in fr.dependencies()}
+    lens = [x for x in r.walk() if isinstance(x, Len)]
+    if lens and {x.frame._name for x in lens} == names:
+        return "sumOfDeps"
+    return "?" + type(r).__name__
+
+
+def fam_len_rules(ctx):
+    """T2: Len / Size / Lengths._simplify_down on constructed expressions."""
+    import dask_expr as dx
+    from dask_expr._expr import Elemwise, Lengths
+    from dask_expr._reductions import Len, Size
+
+    f = Family("rule_output[Len/Size/Lengths._simplify_down]")
+    reqs, code, inputs = [], [], []
+    exprs = list(c11._elemwise_exprs())
+    for k in (1, 3):
+        df = dx.from_pandas(c11.base(9), npartitions=k)
+        other = dx.from_pandas(c11.base(6), npartitions=2)
+        more = {
+            "source": df, "index": df.index, "index_of_add": (df + 1).index, "index_of_filter": df[df.a > 2].index,
+            "filter": df[df.a > 2], "concat": dx.concat([df, other]), "concat_axis1": dx.concat([df[["a"]], df[["b"]]], axis=1),
+            "series": df.a, "repartition": df.repartition(npartitions=2), "shuffle": df.shuffle("b", shuffle_method="tasks"),
+            "sort": df.sort_values("a"), "head": df.head(3, compute=False), "groupby": df.groupby("b").v.sum(),
+            "empty_cols": df[[]], "partitions": df.partitions[[0]], "binop_filters": df.a[df.a > 4] + df.v[df.v < 50],
+        }
+        exprs += [(f"{nm}[np={k}]", c.expr) for nm, c in more.items()]
+    for nm, fr in exprs:
+        try:
+            cls, lp, clp, deps, c0, ndim, ncols = _len_features(fr)
+        except Exception:  # noqa: BLE001
+            continue
+        le = Len(fr)
+        try:
+            txt = _classify_len_result(le, le._simplify_down())
+        except Exception as ex:  # noqa: BLE001
+            txt = _err(ex)
+        reqs.append(f"ln lenrule frame={cls} lp={int(lp)} childlp={int(clp)} deps={_nat(deps)} concat0={int(c0)} ndim={ndim} ncols={ncols}")
+        code.append(txt)
+        inputs.append({"expr": nm, "rule": "Len._simplify_down"})
+        # Size
+        try:
+            r = Size(fr)._simplify_down()
+            lens = [x for x in r.walk() if isinstance(x, Len)] if not isinstance(r, Len) else [r]
+            mult = 1 if isinstance(r, Len) else next((o for o in r.operands if isinstance(o, int)), "?")
+            txt = str(mult) if lens and lens[0].frame._name == fr._name else "?"
+        except Exception as ex:  # noqa: BLE001
+            txt = _err(ex)
+        isframe = fr.ndim == 2
+        reqs.append(f"ln sizerule frame={int(isframe)} ncols={ncols}")
+        code.append(txt)
+        inputs.append({"expr": nm, "rule": "Size._simplify_down"})
+        # Lengths
+        try:
+            r = Lengths(fr)._simplify_down()
+            if r is None:
+                txt = "none"
+            else:
+                txt = next((f"child:{i}" for i, d in enumerate(fr.dependencies()) if d._name == r.frame._name), "?")
+        except Exception as ex:  # noqa: BLE001
+            txt = _err(ex)
+        reqs.append(f"ln lengthsrule elemwise={int(isinstance(fr, Elemwise))} deps={_nat(deps)}")
+        code.append(txt)
+        inputs.append({"expr": nm, "rule": "Lengths._simplify_down"})
+    model = drive(reqs)
+    f.compare(inputs, code, model)
+    return f
+
+
+def fam_pq_lengths(ctx):
+    """T2: ReadParquet*._get_lengths under partition selections (the code as it is: see C06_len_parquet_counterexample)."""
+    import dask_expr as dx
+
+    f = Family("lengths[ReadParquetFSSpec/PyarrowFS._get_lengths]")
+    reqs, code, inputs = [], [], []
+    d = _pq_dir(6, 20)
+    for kw, verb in (({}, "fsspec"), ({"filesystem": "arrow"}, "arrow")):
+        r0 = c11._src(dx.read_parquet(d, **kw).expr)
+        stats = [len(x) for x in e2e.compute_partitions(dx.read_parquet(d, **kw), optimize=False)]
+        for P in [None, [1], [1, 2], [0, 2, 3], [5, 0], [0, 0], [2, 3, 4, 5]]:
+            try:
+                e = c11._src(dx.read_parquet(d, **kw).expr)
+                e = e if P is None else e.substitute_parameters({"_partitions": P})
+                got = e._get_lengths()
+                txt = _nat(got) if got is not None else "None"
+            except Exception as ex:  # noqa: BLE001
+                txt = _err(ex)
+            if verb == "fsspec":
+                reqs.append(f"ln pqlengths stats={_nat(stats)} P={'None' if P is None else _nat(P)}")
+                code.append(txt)
+            else:
+                reqs.append("ping")
+                code.append("pong" if txt == _nat(stats) else "arrow lengths " + txt)
+            inputs.append({"reader": verb, "P": P})
+    model = drive(reqs)
+    f.compare(inputs, code, model)
+    f.note = "fsspec reader: the model is the double positional filter of the code; arrow reader: all file lengths whatever _partitions"
+    return f
+
+
+# public-API expressions exercising the classes flagged _is_length_preserving (T4)
+def _flagged_api(df, other):
+    s = df.a
+    return {
+        "Add": lambda: df + 1, "Assign": lambda: df.assign(z=s + 1), "Projection": lambda: df[["a", "b"]], "Index": lambda: df.index,
+        "RenameFrame": lambda: df.rename(columns={"a": "A"}), "RenameSeries": lambda: s.rename("q"), "AsType": lambda: df.astype("float64"),
+        "Fillna": lambda: df.fillna(0), "Replace": lambda: df.replace(1, 2), "Isin": lambda: s.isin([1, 2]), "Clip": lambda: df.clip(1, 5),
+        "Between": lambda: s.between(1, 5), "IsNa": lambda: df.isna(), "NotNull": lambda: df.notnull(), "Mask": lambda: s.mask(s > 2, 0),
+        "Where": lambda: s.where(s > 2, 0), "Round": lambda: df.round(1), "Abs": lambda: df.abs(), "ToFrame": lambda: s.to_frame(),
+        "Apply": lambda: s.apply(lambda x: x + 1, meta=("a", "int64")), "Map": lambda: s.map({1: 2}), "Drop": lambda: df.drop(columns=["a"]),
+        "ResetIndex": lambda: df.reset_index(), "AddPrefix": lambda: df.add_prefix("p"), "AddSuffix": lambda: df.add_suffix("s"),
+        "Eval": lambda: df.eval("z = a + b"), "Neg": lambda: -df, "Pos": lambda: +df, "Invert": lambda: ~(df > 1), "ToNumeric": lambda: __import__("dask_expr").to_numeric(s),
+        "GT": lambda: df > 1, "And": lambda: (df > 1) & (df < 5), "Mul": lambda: df * 2, "CombineSeries": lambda: s.combine(df.b, max),
+        "VarColumns": lambda: df.var(axis=1), "NUniqueColumns": lambda: df.nunique(axis=1), "Sqrt": None, "ToTimestamp": None,
+        "ClearDivisions": lambda: df.clear_divisions(), "RenameAxis": lambda: df.rename_axis("ix"), "Split": None,
+        "Repartition": lambda: df.repartition(npartitions=2), "RepartitionToMore": lambda: df.repartition(npartitions=7),
+        "RepartitionDivisions": lambda: df.repartition(divisions=[df.divisions[0], df.divisions[-1]]),
+        "Shuffle": lambda: df.shuffle("b", shuffle_method="tasks"), "DiskShuffle": lambda: df.shuffle("b", shuffle_method="disk"),
+        "SortValues": lambda: df.sort_values("a"), "SetIndex": lambda: df.set_index("a"), "SetIndexBlockwise": lambda: df.set_index("v", sorted=True),
+        "Sum(axis=1)": lambda: df.sum(axis=1), "CaseWhen": lambda: s.case_when([(s > 2, 0)]),
+        "MethodOperator": lambda: df.add(df), "FillnaSeries": lambda: s.fillna(s.max()),
+        "EQ": lambda: df == 1, "NE": lambda: df != 1, "GE": lambda: s >= 1, "LE": lambda: s <= 1, "LT": lambda: df < 1,
+        "Div": lambda: df / 2, "FloorDiv": lambda: df // 2, "Mod": lambda: df % 2, "Pow": lambda: s ** 2, "Or": lambda: (s > 1) | (s < 0),
+        "Sub": lambda: df - 1, "XOr": lambda: (s > 1) ^ (s < 3), "AddPrefixSeries": lambda: s.add_prefix("p"), "AddSuffixSeries": lambda: s.add_suffix("s"),
+        "AssignIndex": lambda: _assign_index(df), "ColumnsSetter": lambda: _set_columns(df),
+        "FunctionMap": lambda: s.astype(str).str.upper(), "PropertyMap": lambda: s.astype("datetime64[ns]").dt.year,
+        "ToTimestamp": None, "Elemwise-dropna?": None,
+    }
+
+
+def _assign_index(df):
+    d = df.copy()
+    d.index = d.a
+    return d
+
+
+def _set_columns(df):
+    d = df.copy()
+    d.columns = ["x", "y", "z"]
+    return d
+
+
+
+def fam_len_conformance(ctx):
+    """T4: every flagged class reachable through the public API really preserves the row count (lowered plans, all stages)."""
+    import dask_expr as dx
+    from harness import extractors_len
+
+    f = Family("length_category_conformance[_is_length_preserving classes on small frames]")
+    pdf = c11.base(11)
+    flagged = {r[0].split(".")[-1] for r in extractors_len.length_flag_rows() if r[1]}
+    seen = set()
+    for k in (1, 3):
+        df = dx.from_pandas(pdf, npartitions=k)
+        for nm, mk in _flagged_api(df, None).items():
+            if mk is None:
+                continue
+            try:
+                q = mk()
+                n_in = len(pdf)
+                for stage, e in plans.stage_exprs(q.expr):
+                    for node in e.walk():
+                        cn = type(node).__name__
+                        if cn in flagged and node.dependencies():
+                            child = max(node.dependencies(), key=lambda d: d.npartitions)
+                            a = sum(len(p) for p in e2e.compute_partitions(node, optimize=False))
+                            b = sum(len(p) for p in e2e.compute_partitions(child, optimize=False))
+                            seen.add(cn)
+                            f.compare([{"class": cn, "via": nm, "npartitions": k, "stage": stage}], [a], [b])
+                        if stage != "unoptimized":
+                            break
+            except Exception as ex:  # noqa: BLE001
+                f.compare([{"via": nm, "npartitions": k}], [f"ERR {type(ex).__name__}: {str(ex)[:80]}"], ["rows preserved"])
+    missing = sorted(flagged - seen)
+    f.note = f"{len(seen)} of {len(flagged)} flagged classes exercised through the public API; model side = rows of the dependency the Len rule descends to; not exercised: {', '.join(missing[:40])}"
+    return f
+
+
 def families(ctx):
-    return []
+    return [c11.fam_seldiv, c11.fam_fromarray, c11.fam_frompandas, c11.fam_head_divisions, fam_fused, fam_concat,
+            fam_len_rules, fam_pq_lengths, fam_len_conformance, _c13_fewer_more]
+
+
+def _c13_fewer_more(ctx):
+    """RepartitionToFewer/_ToMore layers, _nsplits, _divisions (C06_repartition_* rest on the C13 models)"""
+    from harness.props import c13
+
+    return c13.fam_graph_fewer_more(ctx)
